@@ -60,15 +60,15 @@ if n == 4:
      * 8.2 Step 2""", """  if (coap_request) {
     /*
      * 8.2 Step 2""")
-    rep("src/coap_oscore.c", """      goto error_no_ack;
-    }
-
+    rep("src/coap_oscore.c", """
     incoming_seq =
         coap_decode_var_bytes8(cose->partial_iv.s, cose->partial_iv.length);
     rcp_ctx->last_seq = incoming_seq;
-  } else { /* !coap_request */""", """      goto error_no_ack;
-    }
-  } else { /* !coap_request */""")
+  } else { /* !coap_request */
+    /*
+     * 8.4 Step 2""", """  } else { /* !coap_request */
+    /*
+     * 8.4 Step 2""")
 if n == 5:
     rep("src/coap_oscore.c", """#if COAP_SERVER_SUPPORT
   /* Appendix B.1.2 request Trap */
